@@ -33,7 +33,7 @@ import traceback
 import common
 from common import g_N, g_bool, g_list
 
-IMPORTS = 'From JV Require Import Model.C08_History.\nOpen Scope N_scope.\n'
+IMPORTS = 'From JV Require Import Model.C08_History.\n'
 
 FP = [('jedi/api/__init__.py', 'Script.__init__'),
       ('jedi/inference/__init__.py', 'InferenceState.__init__'),
@@ -51,6 +51,16 @@ FP = [('jedi/api/__init__.py', 'Script.__init__'),
 
 VALIDITY_UNITS = 6      # call_signatures_validity = 3.0 s, clock unit 0.5 s
 UNIT = 0.5
+
+class _Clock:
+    """Stands in for the `time` module inside jedi.cache."""
+
+    def __init__(self):
+        self.units = 0
+
+    def time(self):
+        return 1000.0 + self.units * UNIT
+
 
 # --------------------------------------------------------------------------- programs
 WORDS = ['alpha', 'beta', 'gamma', 'delta', 'omega', 'kappa', 'sigma', 'theta', 'zeta', 'iota']
@@ -489,7 +499,9 @@ def gen_session(rng, sid, corpus, max_len=30):
         pos = sample_positions(rng, new, region, 4)
         ids = sorted({m.group(0) for m in _idents(new)})
         word = rng.choice(ids) if ids else 'x'
-        steps.append(dict(buf=b, kind=kind, text=new, positions=pos, word=word))
+        # the pause before this edit in clock units of 0.5 s (validity of the signature cache: 6)
+        tick = rng.choice([0, 0, 0, 0, 1, 2, 6, 7, 20]) if si else 0
+        steps.append(dict(buf=b, kind=kind, text=new, positions=pos, word=word, tick=tick))
     return dict(id=sid, mode=mode, buffers=bufs, steps=steps)
 
 
@@ -609,16 +621,68 @@ def _child_setup(cwd):
     return jedi
 
 
+def _sig_key_parts(bracket_leaf, code_lines, user_pos):
+    """The middle component of the time-cache key as the code computes it (a re.Match object or
+    None) and as it is intended (the text from the bracket line up to the last bracket)."""
+    line_index = user_pos[0] - 1
+    before_cursor = code_lines[line_index][:user_pos[1]]
+    coded = ''.join(code_lines[bracket_leaf.start_pos[0]:line_index] + [before_cursor])
+    intended = ''.join(code_lines[bracket_leaf.start_pos[0] - 1:line_index] + [before_cursor])
+    mi = re.match(r'.*\(', intended, re.DOTALL)
+    return re.match(r'.*\(', coded, re.DOTALL) is None, (mi.group(0) if mi else None)
+
+
+def _observe_signature_cache(state):
+    """Wrap helpers.cache_signatures (observation only): for every call record the cursor, whether
+    the key as coded has None in the middle, the bracket position, whether it was answered from
+    the time cache and at which step the cached value was computed."""
+    from jedi.api import helpers
+    orig_cs, orig_infer = helpers.cache_signatures, helpers.infer
+    ncalls = [0]
+    origin = {}
+
+    def w_infer(*a, **k):
+        ncalls[0] += 1
+        return orig_infer(*a, **k)
+
+    def w_cs(inference_state, context, bracket_leaf, code_lines, user_pos):
+        try:
+            none_key, _ = _sig_key_parts(bracket_leaf, code_lines, user_pos)
+        except Exception:
+            none_key = None
+        n0 = ncalls[0]
+        res = orig_cs(inference_state, context, bracket_leaf, code_lines, user_pos)
+        hit = ncalls[0] == n0
+        k = (state.get('path'), tuple(bracket_leaf.start_pos), none_key)
+        if not hit:
+            origin[k] = (state['step'], list(user_pos))
+        o = origin.get(k) if hit else None
+        state['sig'].append(dict(pos=list(user_pos), none_key=none_key, bracket=list(bracket_leaf.start_pos), hit=hit,
+                                 origin_step=o[0] if o else None, origin_pos=o[1] if o else None))
+        return res
+
+    helpers.cache_signatures = w_cs
+    helpers.infer = w_infer
+
+
 def session_child(arg):
     """Runs in a forked child that has never parsed anything: the whole history, one process."""
     sess, root, upto = arg
     jedi = _child_setup(os.path.join(root, 'cwd'))
+    from jedi import cache as jcache
+    clock = _Clock()
+    jcache.time = clock              # explicit clock: the pauses between edits are part of the input
+    state = dict(step=0, sig=[], path=None)
+    _observe_signature_cache(state)
     out = []
     steps = sess['steps'] if upto is None else sess['steps'][:upto + 1]
-    for st in steps:
+    for i, st in enumerate(steps):
         buf = sess['buffers'][st['buf']]
+        clock.units += st.get('tick', 0)
+        state.update(step=i, sig=[], path=_buf_path(root, buf))
         r = eval_text(jedi, st['text'], _buf_path(root, buf), root, [tuple(p) for p in st['positions']],
                       st['word'], proviso=True)
+        r['sig'] = state['sig']
         out.append(r)
     return out
 
@@ -627,6 +691,8 @@ def fresh_child(arg):
     """Runs in a forked child that has never parsed anything: ONE text."""
     text, path, root, positions, word = arg
     jedi = _child_setup(os.path.join(root, 'cwd'))
+    from jedi import cache as jcache
+    jcache.time = _Clock()
     return eval_text(jedi, text, path, root, [tuple(p) for p in positions], word)
 
 
@@ -772,6 +838,34 @@ def shrink_session(ctx, sess, root, step_i, key, fresh_val, budget=40):
     return cur, None
 
 
+def classify_known(sess, step_results, i, key, hv, fv):
+    """Is this difference the stale answer the MODEL predicts for the real configuration
+    (C08_history_dependent_multiline_call)?  That is: the query went through cache_signatures with
+    a key whose middle component is None (cursor on a later line than the bracket, no bracket in
+    between), the call was answered from the time cache, the cached value was computed at an earlier
+    step j of this history - and the answer shown is the one computed at step j."""
+    m = re.match(r'(get_signatures|complete)@(\d+),(\d+)$', key)
+    if not m or not isinstance(hv, list) or not isinstance(fv, list):
+        return None
+    pos = [int(m.group(2)), int(m.group(3))]
+    obs = [o for o in step_results[i].get('sig', ()) if o['pos'] == pos and o['hit'] and o['none_key']
+           and o['origin_step'] is not None and o['origin_step'] < i]
+    if not obs:
+        return None
+    if m.group(1) == 'get_signatures':
+        o = obs[0]
+        oa = step_results[o['origin_step']]['answers'].get('get_signatures@%d,%d' % tuple(o['origin_pos']))
+        if isinstance(oa, list) and [(x[0], x[3]) for x in hv] == [(x[0], x[3]) for x in oa]:
+            return 'stale-signature-multiline-call'
+        return None
+    # complete(): the signatures only contribute the keyword-parameter completions `name=`
+    h = {json.dumps(x) for x in hv}
+    f = {json.dumps(x) for x in fv}
+    if all(json.loads(x)[0].endswith('=') for x in h ^ f):
+        return 'stale-signature-multiline-call'
+    return None
+
+
 def stream_history(ctx):
     corpus = _corpus_chunks()
     ctx.stat('corpus_chunks', len(corpus))
@@ -808,7 +902,7 @@ def stream_history(ctx):
     fres = dict(zip(fkeys, results[len(sessions):]))
 
     kinds, modes = {}, {}
-    n_steps = n_excl = n_q = n_exc = 0
+    n_steps = n_excl = n_q = n_exc = n_sig_hits = 0
     failing = []
     for s, r in zip(sessions, sres):
         modes[s['mode']] = modes.get(s['mode'], 0) + 1
@@ -832,12 +926,23 @@ def stream_history(ctx):
             nq = len(sr['answers'])
             n_q += nq
             n_exc += sum(1 for v in sr['answers'].values() if isinstance(v, str) and v.startswith('EXC:'))
+            n_sig_hits += sum(1 for o in sr.get('sig', ()) if o['hit'] and o['origin_step'] is not None
+                              and o['origin_step'] < i)
             nontriv = i > 0 and any(v not in ([], None) and not (isinstance(v, str) and v.startswith('EXC:'))
                                     for v in sr['answers'].values())
             ctx.count('history', (s['mode'], st['text'], tuple(map(tuple, st['positions'])), i), nontrivial=nontriv, n=nq)
-            diffs = _compare_step(sr, fr)
-            if diffs and first_fail is None:
-                first_fail = (i, diffs)
+            for (key, hv, fv) in _compare_step(sr, fr):
+                cls = classify_known(s, r[1], i, key, hv, fv)
+                if cls:
+                    # a finding the model predicts (Props: C08_history_dependent_multiline_call)
+                    ctx.deviation(dict(stream='history', cls=cls, predicted=True),
+                                  dict(session=_strip(dict(s, steps=s['steps'][:i + 1])), step=i, query=key,
+                                       in_history=hv, fresh=fv),
+                                  'stale answer of %s served from the signature time cache' % key)
+                elif first_fail is None:
+                    first_fail = (i, [(key, hv, fv)])
+                elif first_fail[0] == i:
+                    first_fail[1].append((key, hv, fv))
         if first_fail:
             failing.append((s, first_fail))
     ctx.stat('history_sessions', len(sessions))
@@ -847,6 +952,7 @@ def stream_history(ctx):
     ctx.stat('history_steps_excluded_parso_proviso', n_excl)
     ctx.stat('history_queries', n_q)
     ctx.stat('history_queries_raising_same_exception_in_both', n_exc)
+    ctx.stat('history_signature_cache_hits_across_scripts', n_sig_hits)
     ctx.stat('history_distinct_fresh_evaluations', len(fkeys))
     for s, (i, diffs) in failing[:6]:
         key, hv, fv = diffs[0]
@@ -933,16 +1039,6 @@ def directed_sessions():
 
 
 # --------------------------------------------------------------------------- trace stream
-class _Clock:
-    """Stands in for the `time` module inside jedi.cache."""
-
-    def __init__(self):
-        self.units = 0
-
-    def time(self):
-        return 1000.0 + self.units * UNIT
-
-
 def trace_child(arg):
     """Drive and observe the real caches; returns the list of (op, observed event)."""
     sess, root, tracked = arg
@@ -1050,15 +1146,15 @@ def trace_child(arg):
         ncalls[0] += 1
         return orig_infer(*a, **k)
 
+    match_serial = [0]
+
     def w_cs(inference_state, context, bracket_leaf, code_lines, user_pos):
-        # the INTENDED key: (path, text before the bracket, bracket position)
-        line_index = user_pos[0] - 1
-        before_cursor = code_lines[line_index][:user_pos[1]]
-        other = code_lines[bracket_leaf.start_pos[0]:line_index]
-        whole = ''.join(other + [before_cursor])
-        m = re.match(r'.*\(', whole, re.DOTALL)
-        a = ident(sig_ids, ('t', m.group(0) if m else None))
-        b = ident(sig_ids, ('p', bracket_leaf.start_pos))
+        none_key, intended = _sig_key_parts(bracket_leaf, code_lines, user_pos)
+        # as coded: None (0) or a re.Match object that is equal to nothing else (a fresh number)
+        match_serial[0] += 1
+        a_coded = 0 if none_key else ident(sig_ids, ('m', match_serial[0]))
+        a_text = ident(sig_ids, ('t', intended))
+        b = ident(sig_ids, ('p', tuple(bracket_leaf.start_pos)))
         n0 = ncalls[0]
         res = orig_cs(inference_state, context, bracket_leaf, code_lines, user_pos)
         hit = ncalls[0] == n0
@@ -1068,9 +1164,14 @@ def trace_child(arg):
             owners.discard(None)
             if owners:
                 src = min(owners)
-        trace.append([['S', a, b], ['A', False, hit, src]])
+            else:
+                src = sig_origin.get((cur['key'], a_coded, b), src)
+        else:
+            sig_origin[(cur['key'], a_coded, b)] = src
+        trace.append([['S', a_coded, b, a_text], ['A', False, hit, src]])
         return res
 
+    sig_origin = {}
     filters._get_definition_names = w_defs
     filters.get_cached_parent_scope = w_ps
     klass.get_cached_parent_scope = w_ps
@@ -1141,20 +1242,20 @@ def g_event(e):
     return 'EvNone'
 
 
-def g_op(o):
+def g_op(o, textual=False):
     if o[0] == 'E':
         return 'Edit %s %s' % (g_N(o[1]), g_N(o[2]))
     if o[0] == 'Q':
         return 'Query false (QD %s %s)' % (g_N(o[1]), g_N(o[2]))
     if o[0] == 'S':
-        return 'Query false (QSig %s %s)' % (g_N(o[1]), g_N(o[2]))
+        return 'Query false (QSig %s %s)' % (g_N(o[3] if textual else o[1]), g_N(o[2]))
     if o[0] == 'T':
         return '(@Tick N %s)' % g_N(o[1])
     return '(@Evict N %s)' % g_N(o[1])
 
 
-def g_trace(tr):
-    return g_list(tr, lambda p: '(%s, %s)' % (g_op(p[0]), g_event(p[1])), '@op N * @event N')
+def g_trace(tr, textual=False):
+    return g_list(tr, lambda p: '(%s, %s)' % (g_op(p[0], textual), g_event(p[1])), '@op N * @event N')
 
 
 def gen_trace_session(rng, sid, corpus):
@@ -1183,7 +1284,7 @@ def gen_trace_session(rng, sid, corpus):
 MODEL_CFGS = {
     'real': 'real_config',
     'textual-signature-key': '(mkConfig ByVersion SigTextual MemoPerScript 6)',
-    'path-keyed': '(mkConfig ByPath SigIdentity MemoPerScript 6)',
+    'path-keyed': '(mkConfig ByPath SigAsCoded MemoPerScript 6)',
 }
 
 
@@ -1235,20 +1336,22 @@ def stream_trace(ctx):
     fails, err = common.coq_failing(IMPORTS, '(trace_ok real_config)', cases, shard=2, timeout=1500)
     if err:
         raise RuntimeError('coq evaluation failed (trace): ' + err)
-    ctx.stat('signature_key_mode', 'identity (never hits: re.Match object in the key)')
+    ctx.stat('signature_key_mode', 'as coded: (path, re.Match object or None, bracket position)')
     for i in fails[:4]:
         s, tracked, tr = metas[i]
-        shown = common.coq_show(IMPORTS, ['trace_first_diff real_config %s' % cases[i]] +
-                                ['trace_ok %s %s' % (c, cases[i]) for c in MODEL_CFGS.values()], timeout=900)
+        exprs = ['trace_first_diff real_config %s' % cases[i]]
+        for name, c in MODEL_CFGS.items():
+            exprs.append('trace_ok %s %s' % (c, g_trace(tr, textual=(name == 'textual-signature-key'))))
+        shown = common.coq_show(IMPORTS, exprs, timeout=900)
         m = re.search(r'Some (\d+)', shown)
         at = int(m.group(1)) if m else None
         oks = re.findall(r'=\s*(true|false)\s*:\s*bool', shown)
         matches = [name for name, ok in zip(MODEL_CFGS, oks) if ok == 'true']
         if 'textual-signature-key' in matches:
-            ctx.stat('signature_key_mode', 'textual (the key of cache_signatures now hits)')
+            ctx.stat('signature_key_mode', 'textual (the key of cache_signatures is now compared as text)')
         ctx.violation('obligation', dict(
             what='correspondence trace_ok: the hit/miss/version/size trace of the real caches differs from the model '
-                 '(real_config); no failing input of the property itself was produced by the trace oracle',
+                 '(real_config); the trace oracle found no lookup that returned stale data',
             first_differing_event=at, model_variants_that_match=matches,
             around=tr[max(0, (at or 0) - 3):(at or 0) + 2], session=_strip(s), tracked=tracked), nofail=True)
     if metas:
